@@ -687,6 +687,47 @@ def pipeline(ctx, variant):
                     hh = (0 if h == 12 else h) + (12 if which == 'pm' else 0)
                     add('h12-%s:zh-cn' % which, d + fill(clock, h, m, 0), REFS[k % len(REFS)], 'time',
                         expect_time(hh, m if '{MM}' in clock else 0, 0, '{MM}' in clock, False, False), '%s', 'zh-cn')
+    # word times (midnight / noon …) alone and attached to date expressions, hour-12 designators after a date
+    words = contract['words']
+    wrefs = [REFS[1], REFS[2], REFS[3]]
+    pre = []
+    for culture, spec in words.items():
+        if culture.startswith('_'):
+            continue
+        for d in spec.get('dates', []):
+            for ref in wrefs:
+                pre.append((culture, d, ref))
+    pre_res = dtres.run_queries(pre) if pre else []
+    date_alone = {}
+    for (culture, d, ref), rr in zip(pre, pre_res):
+        if (not isinstance(rr, str) and len(rr) == 1 and rr[0][3] == 'datetimeV2.date' and rr[0][0] == 0
+                and rr[0][1] == len(d) - 1 and rr[0][5] is not None
+                and all(v.get('type') == 'date' and v.get('value') and v.get('value') != 'not resolved' for v in rr[0][5]['values'])):
+            date_alone[(culture, d, ref)] = [(v['timex'], v['value']) for v in rr[0][5]['values']]
+    ctx.extra['word_time_dates_usable'] = '%d of %d' % (len(date_alone), len(pre))
+    for culture, spec in words.items():
+        if culture.startswith('_'):
+            continue
+        for w, hh in spec.get('alone', []):
+            for ref in wrefs[:2]:
+                add('word-alone:' + culture, w, ref, 'time', [('T%02d' % hh, '%02d:00:00' % hh)], '%s', culture)
+        for d in spec.get('dates', []):
+            for ref in wrefs:
+                dv = date_alone.get((culture, d, ref))
+                if dv is None:
+                    continue
+                for w, hh in spec.get('attach', []):
+                    for form in spec.get('forms', []):
+                        add('word-attached:' + culture, form.format(d=d, w=w), ref, 'datetime',
+                            [(tx + 'T%02d' % hh, val + ' %02d:00:00' % hh) for tx, val in dv], '%s', culture)
+                for w, hh, mm in spec.get('designators', []):
+                    for form in spec.get('designator_forms', []):
+                        tpart = 'T%02d' % hh + (':%02d' % mm if ':' in w else '')
+                        add('designator-attached:' + culture, form.format(d=d, w=w), ref, 'datetime',
+                            [(tx + tpart, val + ' %02d:%02d:00' % (hh, mm)) for tx, val in dv], '%s', culture)
+        for w, hh, mm in spec.get('designators', []):
+            add('designator-alone:' + culture, w, wrefs[0], 'time',
+                [('T%02d' % hh + (':%02d' % mm if ':' in w else ''), '%02d:%02d:00' % (hh, mm))], '%s', culture)
     ctx.extra['pipeline_cases'] = len(cases)
     results = dtres.run_queries([(culture_of[i], c[1], c[2]) for i, c in enumerate(cases)])
     fam = {}
@@ -721,6 +762,20 @@ def pipeline(ctx, variant):
                    and len(got) == 2 and got[0] == expected[0])
         sig = ('hour0-unresolved' if hour0 else 'afternoon-12' if noon12 else 'zh-ampm-any-hour' if zh_ampm
                else 'clock-%s' % family)
+        if family.startswith('word-attached'):
+            import re as _re
+            # stable signatures of the word-time findings of the unchanged tree
+            if culture == 'nl-nl' and 'middernacht' in q and got and all(t.endswith('T12') for t, _ in got):
+                sig = 'nl-midnight-noon'
+            elif culture == 'en-us' and (_re.search(r'\d{4}-\d{2}-\d{2} at ', q) or _re.match(r'[a-z0-9 -]+ \d+/\d+/\d{4}$', q)) \
+                    and 'expected one entity' not in (bad or '') and 'type datetimeV2.date' in (bad or ''):
+                sig = 'digit-date-word-time'
+            elif culture == 'it-it' and 'mezzanotte' in q:
+                sig = 'it-midnight-attached'
+            elif culture == 'en-us' and _re.search(r' at 12 (noon|midnight)$', q):
+                sig = 'date-at-12-word'
+            else:
+                sig = 'word-time-%s' % culture
         pending.append((sig, 'parse[%s](%r, ref %s): %s' % (culture, q, ref, bad),
                         {'op': 'recognize_datetime', 'culture': culture, 'query': q, 'reference': list(ref),
                          'expected_values': expected, 'observed': bad}))
